@@ -5,6 +5,8 @@ import (
 	"fmt"
 	"go/token"
 	"os"
+	"runtime/debug"
+	"runtime/pprof"
 	"strings"
 
 	"flytsa/internal/eng"
@@ -15,6 +17,8 @@ import (
 )
 
 func main() {
+	// the analyses allocate many small, short-lived objects: collect less often
+	debug.SetGCPercent(400)
 	if len(os.Args) < 2 {
 		fmt.Fprintln(os.Stderr, "usage: flytsa <check|explain|dump> ...")
 		os.Exit(2)
@@ -39,6 +43,7 @@ func dbgrun(args []string) {
 	dir := fs.String("dir", "/repo", "repository")
 	all := fs.Bool("all", false, "print discharged obligations too")
 	fs.BoolVar(&rules.DebugStates, "states", false, "print state counts")
+	prof := fs.String("cpuprofile", "", "write a CPU profile")
 	fs.StringVar(&rules.DebugFn, "keyfn", "", "print state keys at this function's block")
 	fs.IntVar(&rules.DebugBlock, "keyblock", 0, "block index for -keyfn")
 	fs.Parse(args)
@@ -46,6 +51,11 @@ func dbgrun(args []string) {
 	if err != nil {
 		fmt.Fprintln(os.Stderr, err)
 		os.Exit(2)
+	}
+	if *prof != "" {
+		f, _ := os.Create(*prof)
+		pprof.StartCPUProfile(f)
+		defer pprof.StopCPUProfile()
 	}
 	r := rules.NewRoles(p)
 	fmt.Println("missing anchors:", r.Missing)
